@@ -39,6 +39,18 @@ def build_race_harness():
     return rc == 0, o, tags
 
 
+RULES = {1: "mutual-exclusion", 2: "release-without-hold", 3: "chkMu-write-lock-outside-executor-or-blocking",
+         4: "chkMu-read-lock-outside-executor", 5: "snapshot-hand-off", 6: "lock-order",
+         7: "executor-released-inside-checkpoint-section", 8: "still-held-at-end", 9: "malformed-trace"}
+_RES = ["execSem", "chkMu", "syncSem", "Store.mu", "db.mu"]
+EVNAME = {}
+for _i, _r in enumerate(_RES):
+    EVNAME[(1, _i)] = _r + ".acquire"
+    EVNAME[(2, _i)] = _r + ".try-ok"
+    EVNAME[(4, _i)] = _r + ".release"
+EVNAME.update({(5, 0): "chkMu.RLock", (6, 0): "chkMu.RUnlock", (5, 1): "db.mu.RLock", (6, 1): "db.mu.RUnlock",
+               (7, 0): "snapshot-position-captured", (8, 0): "checkpoint-runs"})
+
 FRAME = re.compile(r"^\s+(\S+)\(\)\n\s+(\S+?):(\d+)", re.M)
 
 
@@ -74,6 +86,31 @@ def parse_races(outdir):
     return out
 
 
+def report_trace_mismatches(v, mism, cases):
+    diag_lines = set(m["line"] for m in mism if m["entry"] == "conc_trace_diag")
+    for m in mism:
+        if m["entry"] == "conc_trace_diag":
+            nums = [int(x, 16) if x.startswith("0x") else int(x) for x in re.findall(r"0x[0-9a-f]+|\d+", m["model"])]
+            k, rule = (nums + [0, 9])[:2]
+            fields = m["case"].split("\t")
+            evs = re.findall(r"\((\d+) (\d+) (\d+)\)", fields[1])
+            lo = max(0, k - 40)
+            sl = ["g%s %s" % (g, EVNAME.get((int(c), int(a)), "code%s/%s" % (c, a))) for g, c, a in evs[lo:k + 1]]
+            v.violation("C12/lock-trace-not-accepted:" + RULES.get(rule, "rule%d" % rule),
+                        "the lock events recorded from the real code (one DB object + the store, %d events) are rejected by the monitor of "
+                        "Conc/Locks.v at event %d: rule %d (%s). The rejected event is the last one of the slice in the replay file."
+                        % (len(evs), k, rule, RULES.get(rule, "?")),
+                        {"trace_slice": sl, "first_event_of_slice": lo, "rejected_event_index": k, "rule": rule,
+                         "how": "runner (conc_trace_diag) on the recorded trace; harness conc -seed %d" % v.seed}, True)
+        elif m["entry"] == "conc_trace_ok":
+            if (m["line"] + 1) not in diag_lines:
+                v.violation("C12/lock-trace-not-accepted:unclassified",
+                            "a recorded lock-event trace is not accepted by conc_trace_ok", {"case_line": m["case"][:2000]}, True)
+        else:
+            v.violation("C12/model-mismatch:" + m["entry"], "extracted model disagrees: " + m["model"][:300],
+                        {"theorem_or_correspondence": m["entry"], "case_lines": C.case_with_defs(cases, m["line"])[:3]}, False)
+
+
 def run_harness(v, out, extra):
     env = {"GORACE": "log_path=%s exitcode=0 halt_on_error=0" % os.path.join(out, "race")}
     return C.sh([C.harness_bin("conc"), "conc", "-out", out, "-seed", str(v.seed)] + extra, timeout=7200, env=env)
@@ -97,13 +134,23 @@ def run(v):
     shutil.rmtree(out, ignore_errors=True)
     os.makedirs(out, exist_ok=True)
     if v.tier == "quick":
-        extra = ["-n", "60", "-budget", "14s", "-small", "-eptime", "4s", "-snapdup", "3", "-regsched", "2", "-regstress", "8"]
+        extra = ["-n", "60", "-budget", "12s", "-small", "-eptime", "4s", "-snapdup", "3", "-regsched", "2", "-regstress", "8"]
     else:
         extra = ["-n", "600", "-budget", "25m", "-snapdup", "12", "-regsched", "3", "-regstress", "80"]
     rc, o = run_harness(v, out, extra)
+    basic = os.path.join(out, "cases_basic.txt")
     if rc != 0 or not os.path.exists(os.path.join(out, "stats.json")):
-        v.violation("C12/harness-run", "stress harness failed (rc=%s): %s" % (rc, o[-1500:]),
-                    {"theorem_or_correspondence": "stress harness run"}, False)
+        pm = re.search(r"^(panic: .*|fatal error: .*)$", o, re.M)
+        if pm:
+            v.violation("C12/daemon-code-crashed:" + pm.group(1)[:100],
+                        "the stress process died in the code under test: " + o[o.find(pm.group(1)):][:1500],
+                        {"seed": v.seed, "how": "harness conc -seed %d" % v.seed, "output": o[-3000:]}, True)
+        else:
+            v.violation("C12/harness-run", "stress harness failed (rc=%s): %s" % (rc, o[-1500:]),
+                        {"theorem_or_correspondence": "stress harness run"}, False)
+        if os.path.exists(basic) and os.path.getsize(basic) > 0:   # the sequential scenario's trace was written before the crash
+            total, mism, errors = C.run_runner(basic, LAYERS, shards=1)
+            report_trace_mismatches(v, mism, basic)
         return
     stats = json.load(open(os.path.join(out, "stats.json")))
     extra_s = stats.get("extra", {})
@@ -112,6 +159,11 @@ def run(v):
     n_calls = sum(ops_total.values())
     cases = os.path.join(out, "cases.txt")
     total, mism, errors = C.run_runner(cases, LAYERS)
+    if os.path.exists(basic) and os.path.getsize(basic) > 0:
+        t2, m2, e2 = C.run_runner(basic, LAYERS, shards=1)
+        report_trace_mismatches(v, m2, basic)
+        total += t2
+        errors += e2
     races = parse_races(out)
     race_sigs = sorted(set(r["signature"] for r in races))
     kinds = sum(1 for k, n in ops_total.items() if n > 0)
@@ -139,13 +191,13 @@ def run(v):
         "operation_kinds_exercised": kinds,
         "snapshots_checked_against_l0_chain": sum(e.get("snapshots_checked", 0) for e in eps),
         "app_commits_during_stress": sum(e.get("app_commits", 0) for e in eps),
-        "scenarios": {k: extra_s.get(k) for k in ("f9", "snapdup", "halfinit", "regsched", "regstress")},
+        "scenarios": {k: extra_s.get(k) for k in ("basic", "f9", "snapdup", "halfinit", "regsched", "regstress")},
         "registry_schedules_compared_with_model": reg_cases,
         "race_reports": len(races),
         "race_report_groups": race_sigs,
         "lock_trace_hook": bool(extra_s.get("trace_hook")),
-        "lock_trace_events": sum(e.get("trace_events", 0) for e in eps),
-        "traces_validated_against_impl": sum(1 for e in eps if e.get("trace_events", 0) > 0),
+        "lock_trace_events": extra_s.get("trace_events_total", 0),
+        "traces_validated_against_impl": sum(n for k, n in (stats.get("classes") or {}).items() if k.startswith("trace/") and not k.endswith("/diag")),
         "model_cases": total,
         "model_mismatches": len(mism),
         "runner_errors": errors[:5],
@@ -157,8 +209,13 @@ def run(v):
                        "released'. EXPLORED, not proved (this run): absence of Go data races (race detector over the randomised stress; the absence "
                        "of a report is not a proof), call completion (watchdog), lock/handle release after Close (fd table, TRUNCATE-checkpoint probe), "
                        "and C01/C02 after the stress (restore latest = source; every uploaded/published snapshot = L0 chain at its TXID). "
-                       "The model is tied to the code by hand transcription (cited line ranges) and, when the add-only verifTrace hook is present in "
-                       "/repo, by lock-trace conformance against the extracted monitor; lock_trace_hook says whether that ran.",
+                       "The model is tied to the code by hand transcription (cited line ranges) and by lock-trace conformance: the add-only "
+                       "verifTrace hook records every acquire/release of execSem, chkMu, syncSem, Store.mu, db.mu (+ position capture, checkpoint run) "
+                       "per goroutine and object; each per-DB projection (with the store's events) of every episode and scenario is replayed by the "
+                       "extracted monitor (conc_trace_ok / conc_trace_diag), whose rules — mutual exclusion, releases match acquires, chkMu only "
+                       "try-locked and only under the executor, read-locked only under the executor, the hand-off, the blocking lock order, idle at the "
+                       "end — are proved to hold of every LTS trace (lts_traces_accepted). lock_trace_hook says whether that ran; without the hook "
+                       "files the check falls back to transcription only.",
     })
     v.assumptions += [
         "Go memory model and runtime are not modelled: race freedom is explored with the race detector, never claimed as proved",
@@ -166,15 +223,7 @@ def run(v):
     ]
     if errors:
         v.violation("C12/runner-error", "; ".join(errors[:3]), {"theorem_or_correspondence": "runner"}, False)
-    for m in mism:
-        if m["entry"] == "conc_trace_ok":
-            v.violation("C12/lock-trace-rejected-by-monitor",
-                        "a lock-event trace recorded from the real code is not accepted by the monitor of Conc/Locks.v "
-                        "(mutual exclusion, chkMu only under the executor, hand-off rule)",
-                        {"case_lines": C.case_with_defs(cases, m["line"])[:3], "how": "runner < case"}, True)
-        else:
-            v.violation("C12/model-mismatch:" + m["entry"], "extracted model disagrees: " + m["model"][:300],
-                        {"theorem_or_correspondence": m["entry"], "case_lines": C.case_with_defs(cases, m["line"])[:3]}, False)
+    report_trace_mismatches(v, mism, cases)
     for iv in stats.get("impl_violations") or []:
         v.violation(iv["signature"], iv["detail"], iv.get("replay") or {}, True)
     seen = set()
